@@ -31,6 +31,7 @@ type c08Case struct {
 	Model   string      `json:"model"`
 	RmGaps  bool        `json:"rmgaps,omitempty"`
 	GapMut  int         `json:"gapmut,omitempty"`
+	RmAmb   bool        `json:"rmamb,omitempty"` // pdist: ambiguous positions removed from the normalisation
 	Cpus    int         `json:"cpus,omitempty"`
 	Ranges  []int       `json:"ranges,omitempty"` // r1min r1max r2min r2max
 	FailAt  string      `json:"fail_at,omitempty"` // "dist" | "seq"
@@ -40,6 +41,8 @@ type c08Case struct {
 	Choices []vrt.Point `json:"choices,omitempty"`
 }
 
+var c08RmAmb bool // set by c08Rel around its calls (the relational part runs one case at a time)
+
 func c08Model(name string, rmgaps bool, gapmut int) (dna.DistModel, error) {
 	m, err := dna.Model(name, rmgaps)
 	if err != nil {
@@ -48,6 +51,7 @@ func c08Model(name string, rmgaps bool, gapmut int) (dna.DistModel, error) {
 	switch t := m.(type) {
 	case *dna.PDistModel:
 		err = t.SetCountGapMutations(gapmut)
+		t.SetRemoveAmbiguous(c08RmAmb)
 	case *dna.RawDistModel:
 		err = t.SetCountGapMutations(gapmut)
 	}
@@ -136,6 +140,8 @@ func c08RevComp(s string) string {
 
 func c08Rel(c *mc.Ctx, cs c08Case) {
 	c.Eval()
+	c08RmAmb = cs.RmAmb
+	defer func() { c08RmAmb = false }()
 	viol := func(clause, desc string) {
 		c.Violation("C08/rel/"+clause+"/"+cs.Model, fmt.Sprintf("%s: case %s", desc, jsonStr(cs)), cs)
 	}
@@ -764,6 +770,13 @@ func c08Tasks(tier string) []mc.Task {
 						}
 						seqs := []string{string(s[:sh.L]), string(s[sh.L:])}
 						c08Rel(c, c08Case{Kind: "rel", Seqs: seqs, Model: model})
+						if model == "pdist" {
+							// the gap / ambiguity counting modes of the p-distance
+							for _, gm := range []int{0, 2} {
+								c08Rel(c, c08Case{Kind: "rel", Seqs: seqs, Model: model, GapMut: gm, RmAmb: true})
+							}
+							c08Rel(c, c08Case{Kind: "rel", Seqs: seqs, Model: model, GapMut: 2})
+						}
 						return !c.Expired()
 					})
 				}})
